@@ -1,9 +1,10 @@
-(* C18, second round: the strengthened invariant Inv2 and the guards of the step theorems.
-   Inv2 = Inv + Rank (every child address is smaller than its parent's: children exist before the node that holds
-   them, and construct / attach / detach / detach_self / duplicate never rewrite a child field) + PidOk (a stored
-   parent id is never dead: a node with a _parent_id is attached and the id resolves).  Rank is the
-   well-foundedness that makes the fuel of [tree_cid] irrelevant; PidOk is what makes a detached node parent-less
-   for good (the registry resolves .parent, so a dead id could come back to life). *)
+(* C18, second and third round: the strengthened invariant Inv2 and the guards of the step theorems.
+   Inv2 = Inv + Rank (the stored child relation is well founded: every stored child exists and no node holds itself
+   below one of its children - round 2 had "every child address is smaller than its parent's", which is false once
+   _replace_child has stored a younger node in an older parent's field; that clause is kept as AddrRank and implies
+   Rank) + PidOk (a stored parent id is never dead: a node with a _parent_id is attached and the id resolves).
+   Rank is the well-foundedness that makes the fuel of [tree_cid] irrelevant; PidOk is what makes a detached node
+   parent-less for good (the registry resolves .parent, so a dead id could come back to life). *)
 From Oak Require Export Spec.LegacySpec.
 From Coq Require Import List String Ascii ZArith Bool Arith.
 Import ListNotations.
@@ -12,15 +13,24 @@ Section Spec2.
   Variable H : pystr -> pystr.
   Variable ct : ctable.
 
-  Definition Rank (s : st) : Prop := forall a k, In k (skids s a) -> k < a.
-  Definition PidOk (s : st) : Prop :=
-    forall a, c_pid (cellD s a) <> None -> attached s a /\ parent s a <> None.
-  Definition Inv2 (s : st) : Prop := RegOk s /\ Rank s /\ PidOk s /\ LInv H ct s.
-
   (* d is a in the subtree stored below a (child fields only; reflexive) *)
   Inductive reach (s : st) : nat -> nat -> Prop :=
   | reach_refl a : reach s a a
   | reach_step a k d : In k (skids s a) -> reach s k d -> reach s a d.
+
+  (* rounds 1-2: a child address is smaller than its parent's (false once _replace_child has stored a younger node
+     in an older parent's field); kept because it implies Rank (Proofs/LegacyHeap.v: addr_rank_rank) *)
+  Definition AddrRank (s : st) : Prop := forall a k, In k (skids s a) -> k < a.
+  (* round 3: the stored child relation is well founded: every stored child exists and no node holds itself below
+     one of its children.  (On a finite heap this bounds every downward chain by |heap|: Proofs/LegacyHeap.v,
+     rank_depth - the reason why the fuel |heap|+1 of tree_cid is enough.) *)
+  Definition Rank (s : st) : Prop :=
+    (forall a k, In k (skids s a) -> live s k) /\ (forall a k, In k (skids s a) -> ~ reach s k a).
+  Definition PidOk (s : st) : Prop :=
+    forall a, c_pid (cellD s a) <> None -> attached s a /\ parent s a <> None.
+  Definition Inv2 (s : st) : Prop := RegOk s /\ Rank s /\ PidOk s /\ LInv H ct s.
+  (* the invariant of round 2 (Inv2_old -> Inv2: Proofs/LegacyHeap.v) *)
+  Definition Inv2_old (s : st) : Prop := RegOk s /\ AddrRank s /\ PidOk s /\ LInv H ct s.
 
   (* ---- guards of attach (and of a constructor that attaches) ---- *)
   (* no node below a that is detached (P) shares its id with one of its ancestors inside the tree of a:
@@ -71,11 +81,18 @@ Section Spec2.
     | ODuplicate _ _ => match ob with RNode _ | RDiv => True | _ => False end
     | OCalcXpath _ => True
     (* replace() of a parent-less receiver (attached root or detached node) = detach_self + constructor;
+       replace() of a node that has a parent p (round 3) = cut out of p + detach_self + constructor + _replace_child:
+       the guards of the constructor are read after the receiver has been cut out and detach_self'ed, the field
+       names of p are distinct, and the new node holds neither p nor the receiver below it;
        ASTNodeReplaceError leaves the state alone *)
     | OReplace a ch =>
         match ob with
-        | RNode r => parent s a = None /\ kids_live s (apply_changes (c_fs (cellD s a)) ch) /\
-                     (detached s a = false -> new_guard (fst (step H ct s (ODetachSelf a))) s' r)
+        | RNode r => (parent s a = None /\ kids_live s (apply_changes (c_fs (cellD s a)) ch) /\
+                      (detached s a = false -> new_guard (fst (step H ct s (ODetachSelf a))) s' r)) \/
+                     (exists p, parent s a = Some p /\ NoDup (map fst (c_fs (cellD s p))) /\
+                                kids_live s (apply_changes (c_fs (cellD s a)) ch) /\
+                                new_guard (fst (step H ct (clear_parent s a) (ODetachSelf a))) s' r /\
+                                ~ reach s' r p /\ ~ reach s' r a)
         | RErr ERep | RDiv => True
         | _ => False
         end
@@ -91,12 +108,18 @@ Section Spec2.
         | RErr ERw | RDiv => True
         | _ => False
         end
-    (* replace_with(node) of a parent-less receiver, the node being detached once the receiver is: detach + id flip +
-       attach; the guard of attach is read on the state in which the node already carries the receiver's id *)
+    (* replace_with(node), the node being detached or an attached root once the receiver's subtree is detached (an
+       attached subtree node is rejected by the pre-check): detach + id flip (an attached node is popped from the
+       registry first) + attach; the guard of attach is read on the state in which the node already carries the
+       receiver's id.  When the receiver has a parent p (round 3) it is cut out of p first and p._replace_child follows:
+       the field names of p are distinct and the node does not hold p below it *)
     | OReplaceWith a (Some n) =>
         match ob with
-        | RNone => parent s a = None /\ detached (fst (step H ct s (ODetach a))) n = true /\
-                   att_guard (fst (flip_ids (fst (step H ct s (ODetach a))) a n)) n
+        | RNone => (parent s a = None /\
+                    att_guard (fst (flip_ids (fst (step H ct s (ODetach a))) a n)) n) \/
+                   (exists p, parent s a = Some p /\ NoDup (map fst (c_fs (cellD s p))) /\
+                              att_guard (fst (flip_ids (fst (step H ct (clear_parent s a) (ODetach a))) a n)) n /\
+                              ~ reach s' n p)
         | RDiv => True
         | _ => False
         end
